@@ -422,24 +422,29 @@ impl GrammarBuilder {
             )
         }
 
+        if gsymref.gsymbol.is_none() {
+            // Production groups are allowed by the grammar but are still
+            // unimplemented.
+            return err!(
+                "Parenthesized groups are not implemented.".to_owned(),
+                Some(self.file.clone())
+            );
+        }
         if let Some(ref op) = gsymref.repetition_op {
             let modifiers = &op.rep_modifiers;
             let modifier = if let Some(modifiers) = modifiers {
-                assert!(
-                    modifiers.len() == 1,
-                    "Separator modifier is supported only!"
-                );
+                if modifiers.len() != 1 {
+                    return err!(
+                        "Only a single separator modifier is supported.".to_owned(),
+                        Some(self.file.clone()),
+                        modifiers[0].span
+                    );
+                }
                 Some(&modifiers[0])
             } else {
                 None
             };
-            // TODO: This unwrap may fail in case of production groups use
-            // which is still unimplemented but allowed by the grammar.
-            let ref_type = match gsymref
-                .gsymbol
-                .as_ref()
-                .expect("Parenthesized groups are not implemented!")
-            {
+            let ref_type = match gsymref.gsymbol.as_ref().unwrap() {
                 GrammarSymbol::Name(ref name) => name.clone(),
                 GrammarSymbol::StrConst(ref mtch) => {
                     if let Some(term) = self.terminals_matches.get(mtch.as_ref()) {
@@ -483,9 +488,15 @@ impl GrammarBuilder {
                     }
                     gsymref.gsymbol = Some(GrammarSymbol::Name(name))
                 }
-                RepetitionOperatorOp::OneOrMoreGreedy => todo!(),
-                RepetitionOperatorOp::ZeroOrMoreGreedy => todo!(),
-                RepetitionOperatorOp::OptionalGreedy => todo!(),
+                RepetitionOperatorOp::OneOrMoreGreedy
+                | RepetitionOperatorOp::ZeroOrMoreGreedy
+                | RepetitionOperatorOp::OptionalGreedy => {
+                    return err!(
+                        "Greedy repetition operators are not implemented.".to_owned(),
+                        Some(self.file.clone()),
+                        ref_type.span
+                    );
+                }
             }
         }
         Ok(())
